@@ -10,6 +10,7 @@ Oracle clauses:
 """
 from checks import common
 from simkit import programs
+from simkit.loop import TickLimit
 from simkit.runner import Result
 
 PROPERTY = 'C06'
@@ -134,9 +135,13 @@ def run(case):
     try:
         if not engine.start():
             raise RuntimeError(f'construction failed: {engine.construct_error!r}')
-        engine.run_schedule()
-        drive = engine.drive_out()
-        _oracle(engine, result, case, drive)
+        try:
+            engine.run_schedule()
+            drive = engine.drive_out()
+        except TickLimit as exc:
+            result.violate('lost_wakeup', 'runaway', f'the run does not come to rest: {exc}')
+        else:
+            _oracle(engine, result, case, drive)
         common.finish_result(engine, result)
         result.counters['loop_contexts_from_completion_callbacks'] += sum(
             1 for c in engine.loop.exc_contexts if 'InvalidStateError' in repr(c.get('exception')))
